@@ -4644,7 +4644,7 @@ Case_BaseLdurStur:
         const Operand_& o5 = op_ext[EmitterUtils::kOp5];
 
         uint32_t q = diff(o0.as<Reg>().reg_type(), RegType::kVec64);
-        if (q > 1 || o0.as<Vec>().has_element_index())
+        if (q > 1 || o0.as<Vec>().element_type() != VecElementType::kB || o0.as<Vec>().has_element_index())
           goto InvalidInstruction;
 
         if (!o1.as<Vec>().is_vec_b16() || o1.as<Vec>().has_element_index())
